@@ -338,6 +338,17 @@ func (c *Ctx) rwSpec(w *Wrapper) *Spec {
 				if n := namedOf(callee.Signature.Recv().Type()); n != nil && types.Identical(n, w.Named) {
 					return true
 				}
+				return false
+			}
+			// an unexported helper of the wrapper's package that is handed the response writer (the
+			// rejection answer moved out of the handler: log + http.Error(w, …, 413))
+			if callee.Parent() == nil && callee.Object() != nil && !callee.Object().Exported() && fnPkg(callee) != nil && w.Named.Obj().Pkg() != nil && fnPkg(callee).Pkg == w.Named.Obj().Pkg() {
+				ps := callee.Signature.Params()
+				for i := 0; i < ps.Len(); i++ {
+					if ps.At(i).Type().String() == "net/http.ResponseWriter" {
+						return true
+					}
+				}
 			}
 			return false
 		},
